@@ -375,10 +375,18 @@ class StmtMixin:
             head.vars[k] = self.fresh_sym(f"loop({k})", ty=before_vars[k].ty)
         for k in mod_heap:
             head.heap[k] = self.fresh_sym(f"loop({k[1]})", ty=before_heap[k].ty)
+        invs = []
+        if not self.quiet and not getattr(self, "no_loop_invariants", False):
+            try:
+                invs = self.infer_loop_invariants(s, env, head, mod_vars, entry_values, mod, fn)
+            except Unsupported:
+                invs = []
+        for f_ in invs:
+            head.add_fact(f_)
         if not self.quiet:
             self.notes.append({"kind": "loop", "node": s, "func": self.cur_func(), "where": self.loc(s),
                                "entry": entry_values, "head": {k: head.vars[k] for k in mod_vars},
-                               "facts": list(env.facts), "stack": tuple(self.where)})
+                               "facts": list(env.facts), "stack": tuple(self.where), "invariants": list(invs)})
         body = head.clone()
         c = truthy(self.ev(s.test, body, mod, fn))
         body.add_fact(c)
@@ -396,8 +404,16 @@ class StmtMixin:
                                "facts": list(body.facts), "stack": tuple(self.where)})
         # state after the loop: loop head with the negated condition, joined with the break states
         after = head.clone()
+        ren = {}
         for k in mod_vars:
             after.vars[k] = self.fresh_sym(f"after({k})", ty=before_vars[k].ty)
+            ren[head.vars[k]] = after.vars[k]
+        if invs:
+            # the invariants hold at every evaluation of the loop test, hence for the values the loop is left with
+            from .terms import substitute
+            after.facts = [f_ for f_ in after.facts if f_ not in invs]
+            for f_ in invs:
+                after.add_fact(substitute(f_, ren))
         for k in mod_heap:
             after.heap[k] = self.fresh_sym(f"after({k[1]})", ty=before_heap[k].ty)
         cc = truthy(self.ev(s.test, after.clone(), mod, fn)) if not is_const(c0, True) else TRUE
@@ -409,6 +425,114 @@ class StmtMixin:
         env.adopt(after)
         env.pc = pc
         self._join_breaks(env, frame)
+
+    def infer_loop_invariants(self, s, env, head, mod_vars, entry_values, mod, fn):
+        """Houdini-style inference of simple inductive invariants for a summarised while loop.
+
+        Candidates: (a) v >= entry(v) for every integer loop variable; (b) every fact that holds at the end of
+        the continuing path of the body and mentions the whole next-value term of one loop variable, read as a
+        predicate of that variable (typically the negation of the test that breaks out of the loop).  A candidate
+        survives if it holds on entry (from the facts before the loop) and is re-established at the end of the body
+        assuming all surviving candidates at the head.  Checked with the same entailment procedure as the rules."""
+        from .terms import substitute, subterms
+        from .decode_rules import budgeted_prove
+        import os as _os
+        _dbg = bool(_os.environ.get("SPVERIF_DEBUG_INV"))
+
+        def loop_syms(t):
+            return {x for x in subterms(t) if x.k == "sym" and isinstance(x.a[0], str) and x.a[0].startswith("loop(")}
+
+        def run_body(assumed):
+            b = head.clone()
+            for f_ in assumed:
+                b.add_fact(f_)
+            c_ = truthy(self.ev(s.test, b, mod, fn))
+            b.add_fact(c_)
+            self.quiet += 1
+            self.loop_stack.append({"breaks": [], "kind": "probe"})
+            try:
+                self.block(s.body, b, mod, fn, [])
+            finally:
+                self.loop_stack.pop()
+                self.quiet -= 1
+            return b
+        ints = [k for k in mod_vars if (entry_values[k].ty == "int" or (entry_values[k].k == "const" and isinstance(entry_values[k].a[0], int)
+                                                                        and not isinstance(entry_values[k].a[0], bool)))]
+        if not ints:
+            return []
+        cands = [(k, binop(">=", head.vars[k], entry_values[k])) for k in ints if not loop_syms(entry_values[k])]
+        b0 = run_body([])
+        if b0.dead:
+            return []
+        base = set(head.facts)
+        for f_ in b0.facts:
+            if f_ in base:
+                continue
+            for k in ints:
+                nxt = b0.vars.get(k)
+                if nxt is None or nxt == head.vars[k]:
+                    continue
+                if any(x == nxt for x in subterms(f_)):
+                    c_ = substitute(f_, {nxt: head.vars[k]})
+                    if loop_syms(c_) <= {head.vars[k]}:
+                        cands.append((k, c_))
+        alive = list(cands)
+        for _round in range(3):
+            b = run_body([c_ for _k, c_ in alive])
+            if b.dead:
+                break
+            keep = []
+            for k, c_ in alive:
+                entry = substitute(c_, {head.vars[k]: entry_values[k]})
+                st1, _m = budgeted_prove(env.facts, entry, max_cases=24, budget=1.5)
+                if _dbg:
+                    print("INV-CAND", k, show(c_)[:120], "| entry", st1, str(_m)[:100])
+                if st1 != "proved":
+                    continue
+                nxt = b.vars.get(k)
+                pres = substitute(c_, {head.vars[k]: nxt}) if nxt is not None else None
+                if pres is None:
+                    continue
+                st2 = None
+                if truthy(pres) in b.facts:
+                    st2, _m = "proved", "literally established at the end of the body"
+                elif c_.k == "op" and c_.a[0] == ">=" and c_.a[1] == head.vars[k] and nxt is not None:
+                    lo_ = self._delta_lower_bound(nxt, head.vars[k])
+                    if lo_ is not None and lo_ >= 0:
+                        st2, _m = "proved", f"next - current >= {lo_} on every branch"
+                if st2 is None:
+                    st2, _m = budgeted_prove(b.facts, pres, max_cases=24, budget=1.5)
+                if _dbg:
+                    print("   preserved", st2, str(_m)[:160])
+                if st2 == "proved":
+                    keep.append((k, c_))
+            if len(keep) == len(alive):
+                break
+            alive = keep
+        return [c_ for _k, c_ in alive]
+
+    def _delta_lower_bound(self, nxt, cur):
+        """syntactic lower bound of nxt - cur, distributing over gated alternatives (None = unknown)"""
+        from .linear import linearize, term_range
+        if nxt.k == "gamma":
+            a, b = self._delta_lower_bound(nxt.a[1], cur), self._delta_lower_bound(nxt.a[2], cur)
+            return None if a is None or b is None else min(a, b)
+        d = linearize(nxt) - linearize(cur)
+        lo = d.c
+        for atom, coef in d.co.items():
+            if atom.k == "gamma":
+                from .linear import lower_bound
+                alo, ahi = lower_bound(atom), None
+            else:
+                alo, ahi = term_range(atom)
+            bound = alo if coef > 0 else ahi
+            if bound is None:
+                import os as _os
+                if _os.environ.get("SPVERIF_DEBUG_INV"):
+                    print("   no bound for atom", show(atom)[:200], "coef", coef)
+                return None
+            lo += coef * bound
+        return lo
 
     def st_Break(self, s, env, mod, fn, exits):
         if self.loop_stack:
